@@ -13,6 +13,8 @@ for d in sorted(glob.glob(os.path.join(ROOT, "seeded", "*", "meta.json"))):
     if only and sid not in only:
         continue
     meta = json.load(open(d))
+    while os.path.exists("/tmp/pause"):
+        time.sleep(10)
     patch = os.path.join(os.path.dirname(d), "patch.diff")
     st = subprocess.run(["git", "-C", "/repo", "status", "--short"], capture_output=True, text=True).stdout.strip()
     if st:
